@@ -66,6 +66,11 @@ function genProgram (rng, opts = {}) {
   lines.push(`  class K { f = ${lit()}; static s = ${lit()}; ${lit().replace(/^(['"]).*$/, "'classKey'")}() { return ${lit()} } }`)
   lines.push(`  const inner = (p) => p + ${lit()} + String.prototype.concat.call(${lit()}, p) + a?.trim(${lit()})`)
   lines.push(`  tag\`tagged ${makeValue(rng, 14)}\`; void ${lit()}; typeof ${lit()}; delete o[${lit()}]`)
+  lines.push(`  let c1, c2 = ${lit()}, c3; c1 = c3 = ${lit()}; const { d1 = ${lit()}, d2: [d3 = ${lit()}] = [], ...dr } = o; ({ d1: c1 = ${lit()} } = o); [c1 = ${lit()}] = b`)
+  lines.push(`  const rq = [require.resolve(${lit()}), o.require(${lit()}), require(${lit()})(${lit()}), require2(${lit()}), new o.RegExp(${lit()}), new RegExp(${lit()}).test(${lit()}), require\`x\`(${lit()})]`)
+  lines.push(`  const oc = [a?.concat(${lit()}), o.get(${lit()})?.trim(), o?.[${lit()}].slice(1), a.concat(...b.split(${lit()})), a?.b?.(${lit()}), String.prototype.concat.apply(a, [${lit()}, ...${lit()}])]`)
+  lines.push(`  const ml = \`multi${nl}line \${a}${nl}template\`; /* multi${nl} line${nl} comment */ const after = ${lit()}; for (const fk of [${lit()}]) acc += fk + ${lit()}`)
+  lines.push(`  label: for (let i = ${lit()}; i < 1; i++) { try { acc += \`\${${lit()}}\${a}\` } catch ({ message = ${lit()} }) { continue label } finally { acc = (${lit()}, acc) } }`)
   lines.push(`  import(${lit()}); return inner(${lit()}) + ${lit()}.length`)
   lines.push('}')
   if (opts.module) lines.push(`export { host as default }; export * from ${lit()}`)
